@@ -1258,6 +1258,10 @@ class Database:
                         )
                         raise
 
+                    data = self._unpackSerialized(
+                        data, dataSet, h5TimeNodeGroup, paramName, comps[0]
+                    )
+
                     if data.dtype.type is np.bytes_:
                         data = np.char.decode(data)
 
@@ -1416,6 +1420,10 @@ class Database:
                             )
                             raise
 
+                        data = self._unpackSerialized(
+                            data, dataSet, h5TimeNodeGroup, paramName, reorderedComps[0]
+                        )
+
                         if data.dtype.type is np.bytes_:
                             data = np.char.decode(data)
 
@@ -1499,6 +1507,22 @@ class Database:
                 # crawl through and update object references.
                 linkName = attrGroup[dataName].name
                 obj.attrs[key] = "@{}".format(linkName)
+
+    @staticmethod
+    def _unpackSerialized(data, dataSet, h5group, paramName, comp):
+        """Undo a parameter's custom serialization (e.g. of flags), as reading a whole state does."""
+        try:
+            pDef = comp.p.paramDefs[paramName]
+        except KeyError:
+            return data
+        if pDef.serializer is None or _SERIALIZER_NAME not in dataSet.attrs:
+            return data
+        attrs = Database._resolveAttrs(dataSet.attrs, h5group)
+        unpacked = pDef.serializer.unpack(data, dataSet.attrs[_SERIALIZER_VERSION], attrs)
+        out = np.empty(len(unpacked), dtype=object)
+        for i, val in enumerate(unpacked):
+            out[i] = val
+        return out
 
     @staticmethod
     def _resolveAttrs(attrs, group):
